@@ -216,10 +216,17 @@ pub fn explore(def: &CheckDef, tier: Tier, base_seed: u64, known: &[String]) -> 
                         agg.harness_errors.push((seed, e.clone()));
                         continue;
                     }
-                    agg.evaluations += 1;
-                    agg.classes.insert(r.class.clone());
-                    if r.nontrivial {
-                        agg.nontrivial_classes.insert(r.class.clone());
+                    agg.evaluations += r.evals.max(1);
+                    if r.classes.is_empty() {
+                        agg.classes.insert(r.class.clone());
+                        if r.nontrivial {
+                            agg.nontrivial_classes.insert(r.class.clone());
+                        }
+                    } else {
+                        for c in &r.classes {
+                            agg.classes.insert(c.clone());
+                            agg.nontrivial_classes.insert(c.clone());
+                        }
                     }
                     for (k, v) in &r.probes {
                         *agg.probes.entry(k.clone()).or_default() += v;
